@@ -386,19 +386,19 @@ Definition out_of_v (mc : bool) (en : env) (c : cfg) (n : nat) (s : string) : op
 Definition out_of (en : env) (c : cfg) (n : nat) (s : string) : option dt := out_of_prog en (skeleton c) n s.
 
 (* without the cast (mc = false: the code before the repair 45ef7df) a boolean / integer mask widens float32 data *)
-Lemma parafac_bool_mask_refuted :
+Lemma parafac_bool_mask_before_45ef7df_refuted :
   exists n, out_of_v false (mkenv F32 B) (with_mask (cfg0 FParafac)) n "factors" = Some F64.
 Proof. exists 2. vm_compute. reflexivity. Qed.
-Lemma parafac_int_mask_refuted :
+Lemma parafac_int_mask_before_45ef7df_refuted :
   exists n, out_of_v false (mkenv F32 I64) (with_mask (cfg0 FParafac)) n "factors" = Some F64.
 Proof. exists 2. vm_compute. reflexivity. Qed.
-Lemma tucker_bool_mask_refuted :
+Lemma tucker_bool_mask_before_45ef7df_refuted :
   exists n, out_of_v false (mkenv F32 B) (with_mask (cfg0 FTucker)) n "core" = Some F64.
 Proof. exists 1. vm_compute. reflexivity. Qed.
-Lemma nn_parafac_bool_mask_refuted :
+Lemma nn_parafac_bool_mask_before_45ef7df_refuted :
   exists n, out_of_v false (mkenv F32 B) (with_mask (cfg0 FNNParafac)) n "factors" = Some F64.
 Proof. exists 2. vm_compute. reflexivity. Qed.
-Lemma svd_bool_mask_refuted :
+Lemma svd_bool_mask_before_45ef7df_refuted :
   exists n, out_of_v false (mkenv F32 B) (with_mask (cfg0 FSvd)) n "out0" = Some F64.
 Proof. exists 0. vm_compute. reflexivity. Qed.
 (* ... while robust_pca has always cast its mask into the data's context and is clean for EVERY mask dtype, in both variants *)
@@ -532,3 +532,101 @@ Example prog_ok2_example :
   prog_ok2 (mkenv F32 B) (mkprog [(0, In_); (2, Op (Var 0) bare)] [] [("*", Var 2)]) = false /\
   prog_ok2 (mkenv F32 B) (mkprog [(0, In_); (1, bools); (2, Op (Var 0) (Var 1))] [] [("*", Var 2)]) = false.
 Proof. repeat split; reflexivity. Qed.
+
+(* ---- complex stays complex: soundness of the exact-context check and its instances *)
+
+Lemma P_exact_b : forallb (fun t => forall2 (fun x y => implb (inP t x && inP t y && (dt_eqb x t || dt_eqb y t))
+      (dt_eqb (promote x y) t && dt_eqb (to_float (promote x y)) t))) ctxs = true.
+Proof. vm_compute. reflexivity. Qed.
+Lemma P_exact t x y : In t ctxs -> inP t x = true -> inP t y = true -> (x = t \/ y = t) ->
+  promote x y = t /\ to_float (promote x y) = t.
+Proof.
+  intros Ht Hx Hy Hxy. pose proof P_exact_b as H. rewrite forallb_forall in H. specialize (H t Ht).
+  pose proof (forall2_spec _ H x y) as H'. cbv beta in H'. rewrite Hx, Hy in H'. simpl in H'.
+  assert (E : dt_eqb x t || dt_eqb y t = true).
+  { destruct Hxy as [->| ->]; rewrite dt_eqb_refl; [reflexivity | apply orb_true_r]. }
+  rewrite E in H'. simpl in H'. apply andb_prop in H'. destruct H' as [H1 H2]. split; apply dt_eqb_eq; assumption.
+Qed.
+Lemma to_float_ctx t : In t ctxs -> to_float t = t.
+Proof. simpl. intros [<-|[<-|[<-|[<-|[]]]]]; reflexivity. Qed.
+
+Definition InvX (t : dt) (D X : list nat) (st : state) : Prop :=
+  (forall x, memb x D = true -> inP t (st x) = true) /\ (forall x, memb x X = true -> st x = t).
+
+Lemma exprX_sound en st D X e : In (tau en) ctxs -> InvX (tau en) D X st -> ok_expr en D e = true ->
+  inP (tau en) (eval en st e) = true /\ (exact_expr en X e = true -> eval en st e = tau en).
+Proof.
+  intros Ht [HD HX]. induction e as [l|x|a IHa b IHb|a IHa b IHb|a IHa|a IHa|tg IHt v IHv]; simpl; intros Hok.
+  - split; [exact Hok | apply dt_eqb_eq].
+  - split; [apply HD, Hok | apply HX].
+  - apply andb_prop in Hok. destruct Hok as [Oa Ob]. destruct (IHa Oa) as [Pa Xa]. destruct (IHb Ob) as [Pb Xb].
+    destruct (P_closed _ _ _ Ht Pa Pb) as [Pab _]. split; [exact Pab|]. intros Hs.
+    apply (P_exact _ _ _ Ht Pa Pb). apply orb_prop in Hs. destruct Hs as [Hs|Hs]; [left; apply Xa, Hs | right; apply Xb, Hs].
+  - apply andb_prop in Hok. destruct Hok as [Oa Ob]. destruct (IHa Oa) as [Pa Xa]. destruct (IHb Ob) as [Pb Xb].
+    destruct (P_closed _ _ _ Ht Pa Pb) as [Pab _]. destruct (P_unary _ _ Ht Pab) as [Pf _]. split; [exact Pf|]. intros Hs.
+    apply (P_exact _ _ _ Ht Pa Pb). apply orb_prop in Hs. destruct Hs as [Hs|Hs]; [left; apply Xa, Hs | right; apply Xb, Hs].
+  - destruct (IHa Hok) as [Pa Xa]. destruct (P_unary _ _ Ht Pa) as [Pf _]. split; [exact Pf|]. intros Hs.
+    rewrite (Xa Hs). apply to_float_ctx, Ht.
+  - destruct (IHa Hok) as [Pa _]. destruct (P_unary _ _ Ht Pa) as [_ [Pr _]]. split; [exact Pr | discriminate].
+  - exact (IHt Hok).
+Qed.
+
+Lemma blockX_sound en b : In (tau en) ctxs -> forall D X st D' X', InvX (tau en) D X st ->
+  exact_block en D X b = Some (D', X') -> InvX (tau en) D' X' (exec en st b).
+Proof.
+  intros Ht. induction b as [|[x e] r IH]; simpl; intros D X st D' X' HI Hok.
+  - injection Hok as <- <-. exact HI.
+  - unfold exec. simpl. fold (exec en (upd st x (eval en st e)) r).
+    destruct (ok_expr en D e) eqn:Oe; [|discriminate].
+    destruct (exprX_sound en st D X e Ht HI Oe) as [Pe Xe].
+    eapply IH; [|exact Hok]. destruct HI as [HD HX]. split.
+    + intros y Hy. simpl in Hy. unfold upd. destruct (Nat.eqb y x) eqn:E; [exact Pe|]. simpl in Hy. apply HD, Hy.
+    + intros y Hy. unfold upd. destruct (exact_expr en X e) eqn:Es.
+      * simpl in Hy. destruct (Nat.eqb y x) eqn:E; [apply Xe; reflexivity|]. simpl in Hy. apply HX, Hy.
+      * apply memb_removeb in Hy. destruct Hy as [Hne Hy]. destruct (Nat.eqb y x) eqn:E.
+        { apply Nat.eqb_eq in E. contradiction. } apply HX, Hy.
+Qed.
+Lemma InvX_st0 t : InvX t [] [] st0. Proof. split; intros x H; discriminate. Qed.
+
+Theorem out_exact_sound en p o : In (tau en) ctxs -> out_exact en p o = true ->
+  forall n, eval en (run en p n) (snd o) = tau en.
+Proof.
+  intros Ht Hok n. unfold out_exact in Hok.
+  destruct (exact_block en [] [] (p_init p)) as [[D1 X1]|] eqn:E1; [|discriminate].
+  destruct (exact_block en D1 X1 (p_body p)) as [[D2 X2]|] eqn:E2; [|discriminate].
+  apply andb_prop in Hok. destruct Hok as [Hok Xe]. apply andb_prop in Hok. destruct Hok as [Hok Oe].
+  apply andb_prop in Hok. destruct Hok as [HsD HsX].
+  assert (I1 : InvX (tau en) D1 X1 (exec en st0 (p_init p))) by (eapply blockX_sound; [exact Ht | apply InvX_st0 | exact E1]).
+  assert (In_ : InvX (tau en) D1 X1 (run en p n)).
+  { unfold run. apply iter_inv; [|exact I1]. intros st HI.
+    destruct (blockX_sound en (p_body p) Ht D1 X1 st D2 X2 HI E2) as [HD HX]. split.
+    - intros x Hx. apply HD. eapply subsetb_spec; eauto.
+    - intros x Hx. apply HX. eapply subsetb_spec; eauto. }
+  destruct (exprX_sound en (run en p n) D1 X1 (snd o) Ht In_ Oe) as [_ H]. apply H, Xe.
+Qed.
+
+
+Lemma exact_outputs_b :
+  forallb (fun t => forallb (fun c => forallb (fun o => implb (float_out o && negb (real_by_design c (fst o)))
+     (out_exact (mkenv t t) (skeleton c) o)) (p_outs (skeleton c))) all_cfgs) ctxs = true.
+Proof. vm_compute. reflexivity. Qed.
+
+(* every output that is not real-valued by design (norms, errors, singular values, |weights|, the non-negative families) has
+   EXACTLY the dtype of the data - in particular complex data gives complex factors / cores / reconstructions - for every family,
+   option set, mask dtype and number of sweeps.  The by-design table is read on the normalised configuration. *)
+Theorem outputs_exact_context t m c n s e :
+  In t ctxs -> valid_cfg c -> In (s, e) (p_outs (skeleton c)) -> float_out (s, e) = true ->
+  real_by_design (norm_cfg c) s = false ->
+  eval (mkenv t m) (run (mkenv t m) (skeleton c) n) e = t.
+Proof.
+  intros Ht Hc Hin Hf Hr. pose proof (skeleton_guarded c Hc) as G.
+  rewrite (run_mask_irrelevant t m t _ n G).
+  assert (Ge : mask_guarded e = true).
+  { unfold prog_guarded in G. apply andb_prop in G. destruct G as [_ Go]. rewrite forallb_forall in Go. exact (Go (s, e) Hin). }
+  rewrite (eval_mask_irrelevant t m t _ e Ge).
+  pose proof (all_cfgs_complete c Hc) as Hc'. rewrite skeleton_norm in Hin |- *.
+  pose proof exact_outputs_b as H. rewrite forallb_forall in H. specialize (H t Ht).
+  rewrite forallb_forall in H. specialize (H _ Hc'). rewrite forallb_forall in H. specialize (H (s, e) Hin).
+  cbn [fst] in H. rewrite Hf, Hr in H. simpl in H.
+  exact (out_exact_sound (mkenv t t) (skeleton (norm_cfg c)) (s, e) Ht H n).
+Qed.
